@@ -197,9 +197,42 @@ func convertToDataNode(path []string, name string, node unserialized, sn schema.
 				return nil, err
 			}
 		}
+		children = mergeRepeated(sn, children)
 	}
 
 	return datanode.CreateDataNode(name, children, vals), nil
+}
+
+// mergeRepeated gives a list or leaf-list ONE node holding all its entries or
+// values, in the order met. XML repeats the element for every entry, so its
+// reader hands over one child per entry, whereas JSON has a single array; the
+// data tree must not depend on the encoding it was read from.
+func mergeRepeated(sn schema.Node, children []datanode.DataNode) []datanode.DataNode {
+	first := make(map[string]int)
+	out := make([]datanode.DataNode, 0, len(children))
+	for _, ch := range children {
+		name := ch.YangDataName()
+		repeatable := false
+		switch sn.Child(name).(type) {
+		case schema.List, schema.LeafList:
+			repeatable = true
+		}
+		idx, seen := first[name]
+		if !repeatable || !seen {
+			if repeatable {
+				first[name] = len(out)
+			}
+			out = append(out, ch)
+			continue
+		}
+		prev := out[idx]
+		kids := append(append([]datanode.DataNode{}, prev.YangDataChildrenNoSorting()...),
+			ch.YangDataChildrenNoSorting()...)
+		vals := append(append([]string{}, prev.YangDataValuesNoSorting()...),
+			ch.YangDataValuesNoSorting()...)
+		out[idx] = datanode.CreateDataNode(name, kids, vals)
+	}
+	return out
 }
 
 func validateDataNode(
